@@ -26,19 +26,23 @@ static std::vector<Child*> children;
 static int nextPid = 4000;
 static size_t pipeCap = 65536;
 static uint64_t vforkFailures = 0;
+static uint64_t exitInChild = 0;       // exit() (not _exit) calls made by code running between vfork and exec
+static char parentStdoutPending[128]; static size_t parentStdoutPendingLen = 0; // what the parent's stdio has buffered for its own stdout (configuration)
 static bool stdinReadable = false;   // configuration: the parent's own descriptor 0 is readable (/dev/null, a file, a closed pipe - as under cron or CI) or idle (a terminal)
 static void (*childMain)(Child*) = 0;
 static Child* inVfork[80];          // per task: the child whose pre-exec code this task is currently executing
 static uint64_t vforkCtx[80][8];
 
 static char** savedEnviron = 0;   /* the real process environment: restored at the start of every run (code running between vfork and exec shares the parent's memory and may change it) */
-static void resetProc() { if (!savedEnviron) savedEnviron = environ; environ = savedEnviron; for (Child* c : children) delete c; children.clear(); nextPid = 4000; pipeCap = 65536; stdinReadable = false; vforkFailures = 0; childMain = 0; memset(inVfork, 0, sizeof inVfork); }
+static void resetProc() { if (!savedEnviron) savedEnviron = environ; environ = savedEnviron; for (Child* c : children) delete c; children.clear(); nextPid = 4000; pipeCap = 65536; stdinReadable = false; vforkFailures = 0; exitInChild = 0; parentStdoutPendingLen = 0; childMain = 0; memset(inVfork, 0, sizeof inVfork); }
 static void restoreEnviron() { if (savedEnviron) environ = savedEnviron; }
 static struct Reg { Reg() { addResetHook(resetProc); addEndHook(restoreEnviron); } } reg;
 
 void setPipeCapacity(size_t n) { pipeCap = n ? n : 1; }
 void setStdinReadable(bool r) { stdinReadable = r; }
 uint64_t vforkFailureCount() { return vforkFailures; }
+uint64_t exitInChildCount() { return exitInChild; }
+void setParentStdoutPending(const char* bytes) { parentStdoutPendingLen = bytes ? std::min(strlen(bytes), sizeof parentStdoutPending) : 0; if (bytes) memcpy(parentStdoutPending, bytes, parentStdoutPendingLen); }
 void setChildMain(void (*fn)(Child*)) { childMain = fn; }
 const std::vector<Child*>& allChildren() { return children; }
 Child* findChild(int pid) { for (Child* c : children) if (c->pid == pid) return c; return 0; }
@@ -105,6 +109,26 @@ void __wrap__exit(int code) {
   closeAll(c->table);
   c->exited = true; c->exitCode = code; c->status = (code & 0xff) << 8;
   logEvent("child_exit_before_exec", c->pid, code);
+  wakeAllNet();
+  leaveVfork(c);
+}
+/* exit() instead of _exit() in the code between vfork and a failed exec: exit runs in the PARENT's memory with the child's descriptors - it flushes
+   whatever the parent has buffered in its stdio streams into the child's descriptors and runs (and uses up) the parent's exit handlers.  The model: the
+   bytes the parent's stdout buffer holds (configured per run by the harness) are written to the child's descriptor 1 when that is a pipe with room. */
+void __wrap_exit(int code) {
+  Child* c = inTask() ? inVfork[self()] : 0;
+  if (!c) exit(code);
+  g_host_depth_export++; chargeCall();
+  exitInChild++;
+  auto it = c->table.m.find(1);
+  if (it != c->table.m.end() && it->second->kind == FK_PIPE_W && it->second->peer && parentStdoutPendingLen) {
+    File* dst = it->second->peer; size_t space = dst->q.size() < dst->capacity ? dst->capacity - dst->q.size() : 0; size_t k = std::min(space, parentStdoutPendingLen);
+    dst->q.insert(dst->q.end(), parentStdoutPending, parentStdoutPending + k); if (k) dst->inEdge++;
+    logEvent("child_exit_flushed_parent_stdio", c->pid, (int64_t)k);
+  }
+  closeAll(c->table);
+  c->exited = true; c->exitCode = code; c->status = (code & 0xff) << 8;
+  logEvent("child_exit_handlers_before_exec", c->pid, code);
   wakeAllNet();
   leaveVfork(c);
 }
